@@ -89,6 +89,7 @@ def run_handler(F, T, fn, top_value, arg0=None):
         "bytecode::context::Ctx::signal": signal,
         "bytecode::context::Ctx::push": push,
         "bytecode::context::Ctx::register_variable_local": register,
+        "bytecode::context::Ctx::register_variable": register,
         "core::str::<impl str>::parse": parse,
         "bytecode::variables::primitive::Primitive::move_out_of_heap_primitive": moved,
         "bytecode::variables::primitive::Primitive::move_out_of_heap_primitive_borrow": moved,
